@@ -587,3 +587,262 @@ func indexByte(s string, c byte) int {
 	}
 	return -1
 }
+
+// ---------------------------------------------------------------------------------------------
+// c05_prepare: teardown of connections that never get (or lose at once) their poller registration:
+// closed by OnPrepare itself, or rejected because the registration fails.
+
+func init() {
+	registerScenario(&Scenario{Name: "c05_prepare", Property: "C05", MaxSteps: 12000, Run: runC05Prepare,
+		Desc: "a server whose OnPrepare registers 1-3 close callbacks and then, per connection, closes it at once, lets its registration with the poller fail (epoll_ctl ADD error), or lets it through; 1-4 clients; every close callback exactly once, descriptor closed, nothing tracked, Shutdown returns"})
+}
+
+func runC05Prepare(e *Env) {
+	e.Setup(1+e.Intn(2), false)
+	nclients := 1 + e.Intn(4)
+	var conns []*c05pConn
+	hows := make([]int, nclients)
+	for i := range hows {
+		hows[i] = e.Intn(3)
+	}
+	requests := 0
+	evl, _ := NewEventLoop(func(ctx context.Context, c Connection) error {
+		requests++
+		r := c.Reader()
+		r.Skip(r.Len())
+		r.Release()
+		return nil
+	}, WithOnPrepare(func(c Connection) context.Context {
+		x := &c05pConn{c: c.(*connection), peer: -1}
+		x.fd = x.c.fd
+		if len(conns) < len(hows) {
+			x.how = hows[len(conns)]
+		}
+		conns = append(conns, x)
+		n := 1 + e.Intn(3)
+		x.cbs = make([]int, n)
+		for k := 0; k < n; k++ {
+			k := k
+			c.AddCloseCallback(func(Connection) error { x.cbs[k]++; return nil })
+		}
+		switch x.how {
+		case 1:
+			c.Close()
+		case 2:
+			vsys.K.EpollCtlAddFail = 256 // the registration that follows OnPrepare fails
+		}
+		simrt.Publish()
+		return nil
+	}))
+	ln, path := e.NewRawListener("c05p")
+	e.StartServer(evl, ln)
+	var peers []int
+	for i := 0; i < nclients; i++ {
+		before := len(conns)
+		p, err := vsys.HConnectUnix(path)
+		if err != nil {
+			panic("harness: connect: " + err.Error())
+		}
+		peers = append(peers, p)
+		// one accept at a time, so that the fault knob hits the registration it is meant for
+		simrt.WaitUntil("prepared", func() bool { return len(conns) > before })
+		simrt.WaitQuiescentFor(1e9)
+		vsys.K.EpollCtlAddFail = 0
+		if e.Bool() {
+			vsys.HWrite(p, []byte("hello"))
+			simrt.WaitQuiescentFor(1e9)
+		}
+	}
+	e.nonTriv = true
+	for i, x := range conns {
+		if x.how == 0 {
+			continue
+		}
+		what := map[int]string{1: "closed by its OnPrepare", 2: "rejected because its registration failed"}[x.how]
+		for k, n := range x.cbs {
+			if n != 1 {
+				e.Fail("closecb-exactly-once", fmt.Sprintf("prepare-closecb-%d-times", n), "connection %d was %s: its close callback %d ran %d times", i, what, k, n)
+				break
+			}
+		}
+		if x.fd < vsys.MaxFD && vsys.FDs[x.fd].Open && vsys.FDs[x.fd].Owner == vsys.OwnNetpoll && x.c.fd == x.fd && !fdReused(conns, i) {
+			e.FailP("C15", "no-descriptor-left", "prepare-fd-open", "connection %d was %s but its descriptor %d is still open", i, what, x.fd)
+		}
+		if x.c.IsActive() {
+			e.Fail("inactive-after-close", "prepare-still-active", "connection %d was %s but IsActive() is true", i, what)
+		}
+	}
+	// the rest goes down with the server
+	done := false
+	simrt.GoNamed("shutdown", false, func() {
+		ctx, cancel := simrt.WithTimeout(context.Background(), 2*time.Second)
+		evl.Shutdown(ctx)
+		cancel()
+		done = true
+	})
+	simrt.WaitQuiescentFor(5e9)
+	if !done {
+		e.FailP("C13", "shutdown-terminates", "prepare-shutdown-stuck", "Shutdown has not returned although every connection is idle; tasks=%v", simrt.TaskStates())
+	}
+	for i, x := range conns {
+		for k, n := range x.cbs {
+			if n != 1 {
+				e.Fail("closecb-exactly-once", fmt.Sprintf("prepare-closecb-%d-times", n), "connection %d (how=%d): its close callback %d ran %d times after Shutdown", i, x.how, k, n)
+				break
+			}
+		}
+	}
+	for _, p := range peers {
+		vsys.HClose(p)
+	}
+	simrt.WaitQuiescentFor(1e9)
+	e.Summary = fmt.Sprintf("pollers=%d clients=%d hows=%v requests=%d", e.Pollers, nclients, hows, requests)
+	e.State = fmt.Sprint(hows)
+	e.Teardown()
+	CheckLedger(e)
+}
+
+// fdReused reports whether a later connection got the descriptor number of connection i.
+func fdReused(conns []*c05pConn, i int) bool {
+	for j := i + 1; j < len(conns); j++ {
+		if conns[j].fd == conns[i].fd {
+			return true
+		}
+	}
+	return false
+}
+
+type c05pConn struct {
+	c    *connection
+	fd   int
+	how  int // 0 pass, 1 close in OnPrepare, 2 registration fails
+	cbs  []int
+	peer int
+}
+
+// ---------------------------------------------------------------------------------------------
+// c06_late: SetOnRequest on a client connection at any moment relative to the arrival of input and
+// to the peer's hang-up (C06's quantifier names "SetOnRequest on a client connection with data
+// already buffered").
+
+func init() {
+	registerScenario(&Scenario{Name: "c06_late", Property: "C06", MaxSteps: 60000, Run: runC06Late,
+		Desc: "a client connection (FD or dialled) without request handler; its peer sends 1-3 chunks and stays or closes; SetOnRequest is called at a seeded moment (before, between or after the chunks, before or after the hang-up); the handler takes some bytes per call; every byte must be offered to it, serially, before the close callbacks run"})
+}
+
+func runC06Late(e *Env) {
+	e.Setup(1+e.Intn(2), e.Chance(1, 3))
+	mode := modeFD
+	if e.Chance(1, 3) {
+		mode = modeDial
+	}
+	conn, peer := e.NewConnMode(mode)
+	const stream = 61
+	chunks := 1 + e.Intn(3)
+	sizes := make([]int, chunks)
+	total := 0
+	for i := range sizes {
+		sizes[i] = e.Pick(1, 5, 64, 700)
+		total += sizes[i]
+	}
+	peerCloses := e.Chance(2, 3)
+	setAt := e.Intn(4) // 0 at once, 1 after a sleep, 2 once everything has arrived, 3 once the peer has hung up (or everything arrived)
+	perCall := e.Pick(1, 4, 1000)
+	consumed, inflight, maxInflight, calls := 0, 0, 0, 0
+	closeCBs, closeCBAtConsumed := 0, -1
+	bad := false
+	conn.AddCloseCallback(func(Connection) error {
+		closeCBs++
+		closeCBAtConsumed = consumed
+		if inflight > 0 {
+			e.FailP("C05", "no-close-callback-during-handler", "closecb-during-handler", "close callback ran while the handler is in progress")
+		}
+		return nil
+	})
+	sent, peerDone := 0, false
+	simrt.GoNamed("peer", false, func() {
+		for _, n := range sizes {
+			if e.Bool() {
+				simrt.Sleep(int64(e.Pick(0, 1, 3)) * 100000)
+			}
+			w, _ := PeerWriteAll(peer, streamBytes(stream, sent, n), func(r int) int { return r })
+			sent += w
+		}
+		if peerCloses {
+			if e.Bool() {
+				simrt.Sleep(int64(e.Pick(0, 1, 3)) * 100000)
+			}
+			vsys.HClose(peer)
+			peer = -1
+		}
+		peerDone = true
+	})
+	handler := func(ctx context.Context, c Connection) error {
+		inflight++
+		calls++
+		if inflight > maxInflight {
+			maxInflight = inflight
+		}
+		r := c.Reader()
+		n := r.Len()
+		if n > perCall {
+			n = perCall
+		}
+		if n > 0 {
+			p, err := r.Next(n)
+			if err == nil {
+				if checkStream(stream, consumed, p) >= 0 && !bad {
+					bad = true
+					e.FailP("C04", "stream-intact", "late-handler-content", "the handler was offered bytes that differ from what the peer sent at position %d", consumed)
+				}
+				consumed += len(p)
+			}
+			r.Release()
+		}
+		if e.Chance(1, 4) {
+			simrt.Sleep(int64(e.Pick(1, 2)) * 100000)
+		}
+		inflight--
+		return nil
+	}
+	setDone := false
+	simrt.GoNamed("setter", false, func() {
+		switch setAt {
+		case 1:
+			simrt.Sleep(int64(e.Pick(0, 1, 2, 5)) * 100000)
+		case 2:
+			simrt.WaitUntil("all input buffered", func() bool { return conn.inputBuffer.Len() >= total })
+		case 3:
+			simrt.WaitUntil("peer gone or all input buffered", func() bool { return !conn.IsActive() || (peerDone && conn.inputBuffer.Len() >= total) })
+		}
+		conn.SetOnRequest(handler)
+		setDone = true
+	})
+	simrt.WaitQuiescentFor(3e9)
+	e.nonTriv = true
+	e.Summary = fmt.Sprintf("mode=%d sizes=%v peerCloses=%v setAt=%d perCall=%d pollers=%d", mode, sizes, peerCloses, setAt, perCall, e.Pollers)
+	e.State = fmt.Sprint(mode, chunks, peerCloses, setAt, perCall)
+	if !setDone {
+		e.Fail("handler-started", "setonrequest-stuck", "SetOnRequest has not returned; tasks=%v", simrt.TaskStates())
+	}
+	if maxInflight > 1 {
+		e.Fail("serial-handler", "handler-overlap", "%d OnRequest invocations were in progress at once", maxInflight)
+	}
+	if setDone && peerDone && consumed+0 < sent && inflight == 0 {
+		left := conn.inputBuffer.Len()
+		e.Fail("no-stranded-input", "late-handler-stranded", "the peer sent %d bytes, the handler (set %s) was called %d times and offered %d; %d are buffered, no invocation is in progress and everything is at rest (peer closed: %v, close callbacks ran: %d)", sent, []string{"at once", "after a pause", "once all input was buffered", "once the peer had hung up"}[setAt], calls, consumed, left, peerCloses, closeCBs)
+	}
+	if closeCBs > 0 && closeCBAtConsumed < sent && peerDone {
+		e.Fail("input-offered-before-close", "late-handler-closed-early", "the close callbacks ran when the handler had been offered %d of the %d bytes the peer sent before it closed", closeCBAtConsumed, sent)
+	}
+	if peerCloses && setDone && peerDone && closeCBs != 1 {
+		e.FailP("C05", "closecb-exactly-once", fmt.Sprintf("late-handler-closecb-%d-times", closeCBs), "the peer closed a connection that has a request handler; its close callback ran %d times", closeCBs)
+	}
+	conn.Close()
+	if peer >= 0 {
+		vsys.HClose(peer)
+	}
+	simrt.WaitQuiescentFor(2e9)
+	e.Teardown()
+	CheckLedger(e)
+}
